@@ -213,6 +213,9 @@ func doParsing(mp *msgParser) (err error) {
 
 	// Get body length.
 	mp.fieldIndex++
+	if mp.fieldIndex >= len(mp.msg.fields) {
+		return parseError{OrigError: "message ends after BeginString"}
+	}
 	mp.parsedFieldBytes = &mp.msg.fields[mp.fieldIndex]
 	if mp.rawBytes, err = extractSpecificField(mp.parsedFieldBytes, tagBodyLength, mp.rawBytes); err != nil {
 		return
@@ -221,6 +224,9 @@ func doParsing(mp *msgParser) (err error) {
 
 	// Get msg type.
 	mp.fieldIndex++
+	if mp.fieldIndex >= len(mp.msg.fields) {
+		return parseError{OrigError: "message ends after BodyLength"}
+	}
 	mp.parsedFieldBytes = &mp.msg.fields[mp.fieldIndex]
 	if mp.rawBytes, err = extractSpecificField(mp.parsedFieldBytes, tagMsgType, mp.rawBytes); err != nil {
 		return
@@ -234,6 +240,10 @@ func doParsing(mp *msgParser) (err error) {
 	mp.foundBody = false
 	mp.foundTrailer = false
 	for {
+		if mp.fieldIndex >= len(mp.msg.fields) {
+			// All fields have been consumed without reaching the CheckSum.
+			return parseError{OrigError: "message does not end with CheckSum"}
+		}
 		mp.parsedFieldBytes = &mp.msg.fields[mp.fieldIndex]
 		if xmlDataLen > 0 {
 			mp.rawBytes, err = extractXMLDataField(mp.parsedFieldBytes, mp.rawBytes, xmlDataLen)
@@ -314,8 +324,21 @@ func parseGroup(mp *msgParser, tags []Tag) {
 
 	for {
 		mp.fieldIndex++
+		if mp.fieldIndex >= len(mp.msg.fields) {
+			// The message ends inside the group. Keep what has been parsed; the caller reports
+			// the missing CheckSum.
+			mp.msg.Body.add(dm)
+			return
+		}
 		mp.parsedFieldBytes = &mp.msg.fields[mp.fieldIndex]
-		mp.rawBytes, _ = extractField(mp.parsedFieldBytes, mp.rawBytes)
+		var err error
+		if mp.rawBytes, err = extractField(mp.parsedFieldBytes, mp.rawBytes); err != nil {
+			// Malformed field: leave it to the caller, which fails on it with the proper error.
+			mp.msg.Body.add(dm)
+			mp.fieldIndex--
+			mp.parsedFieldBytes = &mp.msg.fields[mp.fieldIndex]
+			return
+		}
 		if !isHeaderField(mp.parsedFieldBytes.tag, mp.transportDataDictionary) && !isTrailerField(mp.parsedFieldBytes.tag, mp.transportDataDictionary) {
 			// The trailer starts after the last field that belongs to the body: a header or trailer
 			// field that ends the group is not part of the body bytes.
